@@ -37,6 +37,28 @@ def run(ctx):
     for fn in files:
         jobs.append({"type": "3d", "id": "3d-" + fn, "path": os.path.join(VERIF, "corpus", fn), "write": fn in ("1DFU_1_M-N.cif", "488d.pdb", "184D.cif")})
         jobs.append({"type": "3d", "id": "3d-gaps-" + fn, "path": os.path.join(VERIF, "corpus", fn), "find_gaps": True})
+    # external pair lists with equally ranked conflicting canonical pairs (ties of the conflict-resolution sort key)
+    from . import geo
+    for fn in ["1E7K_1_C.cif", "1A1T_1_B.cif"] + ([] if ctx.quick else ["1ehz-assembly-1.cif"]):
+        s3 = geo.load3d(fn)
+        nuc = [i for i, r in enumerate(s3.residues) if r.is_nucleotide]
+        gs = [i for i in nuc if s3.residues[i].one_letter_name == "G"]
+        cs = [i for i in nuc if s3.residues[i].one_letter_name == "C"]
+        us = [i for i in nuc if s3.residues[i].one_letter_name == "U"]
+        for k in range(4 if ctx.quick else 20):
+            pairs = []
+            if len(gs) >= 2 and len(cs) >= 2:
+                g1, g2 = rng.sample(gs, 2)
+                c1, c2 = rng.sample(cs, 2)
+                # three mutually conflicting G-C pairs of the same rank
+                pairs += [(g1, c1, "cWW", "XIX"), (g1, c2, "cWW", "XIX"), (g2, c1, "cWW", "XIX")]
+            if len(gs) >= 1 and len(us) >= 2:
+                g = rng.choice(gs)
+                u1, u2 = rng.sample(us, 2)
+                pairs += [(g, u1, "cWW", "XXVIII"), (g, u2, "cWW", "XXVIII")]
+            rng.shuffle(pairs)
+            if pairs:
+                jobs.append({"type": "map", "id": f"map-{fn}-{k}", "path": os.path.join(VERIF, "corpus", fn), "pairs": pairs, "find_gaps": bool(k % 2)})
     os.makedirs(os.path.join(BUILD, "c14"), exist_ok=True)
     jobfile = os.path.join(BUILD, "c14", "jobs.json")
     json.dump(jobs, open(jobfile, "w"))
@@ -62,6 +84,8 @@ def run(ctx):
         outs = [(s, r.get(jid)) for s, r, _ in results]
         ref = outs[0][1]
         nontrivial = ref is not None and "error" not in ref and (("|" in ref.get("all_dot_brackets", "")) if job["type"] == "2d" else True)
+        if job["type"] == "map":
+            ctx.hist["map"] = ctx.hist.get("map", 0)
         ctx.count(jid + json.dumps(job.get("pairs", job.get("path"))), nontrivial, job["type"])
         if ref is None or "error" in (ref or {}):
             ctx.violation("worker failed to produce outputs", {"job": job, "output": ref, "stderr": results[0][2]}, has_input=False)
